@@ -40,7 +40,7 @@ var swaps = map[string]map[string]string{
 	"pkg/cookies":              {"sync": "vsync", "sync/atomic": "vatomic"},
 	"pkg/middleware":           {"time": "vtime", "context": "vcontext"},
 	"pkg/header":               {"sync": "vsync", "sync/atomic": "vatomic"},
-	"pkg/watcher":              {"github.com/fsnotify/fsnotify": "vfsnotify"},
+	"pkg/watcher":              {"github.com/fsnotify/fsnotify": "vfsnotify", "time": "vtime"},
 }
 
 // files of package main that must never be rewritten for sync/atomic (they do not
